@@ -128,6 +128,10 @@ def gen_cases(tier, seed):
     cases = []
     for k in range(0, len(chosen), chunk):
         cases.append({"id": f"c08-pairs-{seed}-{k // chunk}", "seed": seed * 31 + k, "pairs": chosen[k:k + chunk]})
+    hist = [(ka, pa, kb, pb) for ka in ("out", "vol", "inp") for pa in FILES[:2]
+            for kb, pb in (("glob", "*"), ("glob", "d/*"), ("static", pa), ("tree", "d/"), ("static_pattern", "*"))]
+    for k in range(0, len(hist), 6):
+        cases.append({"id": f"c08-history-{k // 6}", "seed": seed + k, "kind": "history", "pairs": hist[k:k + 6]})
     nseq = 12 if tier == "quick" else 300
     cases += [{"id": f"c08-seq-{seed}-{i}", "seed": seed * 4099 + i, "kind": "seq"} for i in range(nseq)]
     return cases
@@ -212,10 +216,11 @@ def fresh_project():
         H.write_file(p, f"user file {p}\n")
 
 
-def run_sequence(seq, rng, mode="free"):
+def run_sequence(seq, rng, mode="free", keep=False):
     """seq: list of (creator, request).  Creators "P" and "Q" are sibling steps of the plan; the
     order of the requests is forced with signal/await.  Returns [(ok, error, message, writes)]."""
-    fresh_project()
+    if not keep:
+        fresh_project()
     progs = {"P": [], "Q": []}
     conductor = []
     for k, (creator, req) in enumerate(seq):
@@ -250,7 +255,7 @@ def run_sequence(seq, rng, mode="free"):
 def run_case(case):
     rng = random.Random(case["seed"])
     counters = dict.fromkeys(["evaluations", "builds", "asymmetric_skipped", "solo_rejected",
-                              "sequences", "sequence_requests", "repeat_deltas_checked",
+                              "sequences", "sequence_requests", "repeat_deltas_checked", "histories",
                               "claim_pairs_on_one_path"] + REQUIRED_COUNTERS, 0)
     violations = []
     classes = set()
@@ -273,7 +278,29 @@ def run_case(case):
     cwd = os.getcwd()
     os.chdir("w")
     try:
-        if case.get("kind") == "seq":
+        if case.get("kind") == "history":
+            # a second build on the same database: steps of the first build are recycled by the
+            # re-run plan; a declaration that conflicts with what is recycled must still be rejected
+            for ka, pa, kb, pb in case["pairs"]:
+                A, B = decl(ka, pa, "A"), decl(kb, pb, "B")
+                witness = {"A": A, "B": B, "history": "build 1: A; build 2: B then A (same creator)"}
+                out1, mon1, _b = run_sequence([("P", A)], rng)
+                collect(mon1, f"history build 1 of {ka} {pa}", witness)
+                out2, mon2, _b = run_sequence([("P", B), ("P", A)], rng, keep=True)
+                collect(mon2, f"history build 2 of {kb} {pb} then {ka} {pa}", witness)
+                fresh, monf, _b = run_sequence([("P", B), ("P", A)], rng)
+                counters["histories"] += 1
+                counters["evaluations"] += 1
+                if len(out2) == 2 and len(fresh) == 2:
+                    classes.add(repr(("history", ka, kb, tuple(o[0] for o in out2))))
+                    # Which of the two is rejected may differ (the old step is still attached while
+                    # the plan runs again), but a pair that conflicts on a fresh database must not
+                    # be accepted as a whole because the step is recycled.
+                    if not all(o[0] for o in fresh) and all(o[0] for o in out2):
+                        vio("conflicting declarations are both accepted when the step is recycled from an earlier build",
+                            f"B={kb} {pb} then A={ka} {pa}: fresh {[o[0] for o in fresh]}, after an earlier "
+                            f"build of A {[o[0] for o in out2]}", witness)
+        elif case.get("kind") == "seq":
             # random longer sequences by two creators: only the claims invariant is judged
             for rep in range(4):
                 seq = []
